@@ -11,6 +11,11 @@ CHECKS = {
           "Generated histories of add/delete/commit/rollback/compact/reopen over 1-3 writer handles and both storages are executed against the real index and against an in-memory reference model; a fresh reader's match_all must equal the model after every check point. Exploration, not proof: it samples the history space (thousands of histories per run) and shrinks any failure to a minimal op list.",
           "Trusted: the reference store model (harness/src/model.rs), serde_json, proptest. In-memory storage is driven with one live handle at a time.",
           "DESIGN.md §5 C04"),
+  "C08": ("exploration",
+          "property-based testing against a reference filter evaluator over the raw JSON documents",
+          "Random schemas with fast keyword/i64/f64 fields and nested objects up to three levels, documents with arrays of parent objects holding child arrays, and And/Or/Not/Nested filter trees (sibling Nested on one path, Nested inside Nested, dotted paths, type-mismatched clauses). Each filter is run through request.filter, bool.filter and constant_score.filter and the hit-id set must equal the harness's independent evaluator of the documented semantics.",
+          "Trusted: harness/src/fmodel.rs (the documented filter semantics as read from the README). Null members of nested arrays and dotted field names inside a Nested clause are not generated (unspecified).",
+          "DESIGN.md §5 C08"),
   "C15": ("exploration",
           "property-based testing with structural JSON mutation of schema-valid documents against an independent schema validator",
           "Random schemas and schema-valid documents are mutated by 1-3 structural edits (undeclared keys, replaced/wrapped/removed nodes, id edits). Oracle: add_document Ok implies commit Ok and a later valid document through a fresh writer commits; a document violating a documented rule (independent validator in the harness) must be rejected at add_document. Tens of thousands of documents per quick run.",
